@@ -16,7 +16,7 @@ func init() {
 		Rules: []*Rule{
 			{ID: "C12.merge-arms", Floor: 5, Clause: "in merge2/merge3 each select arm receives from parameter in_k, sends the received item to out when ok, and otherwise disables the same in_k, counts it once and compares the count with the number of inputs",
 				Run: ruleMergeArms},
-			{ID: "C12.merge-dispatch", Floor: 4, Clause: "chans.Merge calls mergeN under len(in) == N with in[0..N-1] in order; the general path guards every reflect.Select by a non-empty case list in the same iteration (zero inputs return at once)",
+			{ID: "C12.merge-dispatch", Floor: 5, Clause: "chans.Merge calls mergeN under len(in) == N with in[0..N-1] in order; the general path guards every reflect.Select by a non-empty case list in the same iteration (zero inputs return at once)",
 				Run: ruleMergeDispatch},
 			{ID: "C12.replicate-shape", Floor: 1, Clause: "Replicate sends each item received from src to every element of dsts (nested loops), and nothing else",
 				Run: ruleReplicateShape},
@@ -548,6 +548,66 @@ func ruleMergeDispatch(c *Ctx, r *R) {
 		}
 	}
 	r.ok(gen, "chans.Merge|general-forward", fn.Pos(), "the reflect path must send the received value to out exactly when the receive reported ok")
+	// ... and the case taken out of the list when a receive reports "closed" is the one reflect.Select chose: removing (or
+	// overwriting) any other slot evicts a live input while the closed one stays and keeps firing
+	isChosen := func(v ssa.Value, chain []*ssa.Call) bool {
+		ls := valueLeaves(v, chain, 0)
+		if len(ls) == 0 {
+			return false
+		}
+		for _, lf := range ls {
+			var tuple ssa.Value
+			idx := -1
+			switch x := resolveVal(lf.v).(type) {
+			case *ssa.Extract:
+				tuple, idx = x.Tuple, x.Index
+			case *tupleElem:
+				tuple, idx = x.tuple, x.idx
+			}
+			call, ok := tuple.(*ssa.Call)
+			if !ok || idx != 0 {
+				return false
+			}
+			if cal := call.Call.StaticCallee(); cal == nil || cal.Name() != "Select" || cal.Pkg == nil || cal.Pkg.Pkg.Path() != "reflect" {
+				return false
+			}
+		}
+		return true
+	}
+	isCaseList := func(v ssa.Value) bool {
+		st, ok := v.Type().Underlying().(*types.Slice)
+		return ok && isNamedType(st.Elem(), "reflect", "SelectCase")
+	}
+	nRemove := 0
+	for _, dd := range deepInstrs(fn, 2) {
+		switch x := dd.in.(type) {
+		case *ssa.Call:
+			cal := staticCallee(&x.Call)
+			if cal == nil || !(fname(cal) == "Remove" || fname(cal) == "RemoveUnordered") || len(x.Call.Args) != 3 || !isCaseList(x.Call.Args[0]) {
+				continue
+			}
+			nRemove++
+			r.ok(isChosen(x.Call.Args[1], dd.calls) && isConstInt(x.Call.Args[2], 1), "chans.Merge|closed-case-removed#"+itoa(nRemove), x.Pos(), "the select case removed after a receive reported a closed input must be exactly the one reflect.Select chose (index chosen, count 1), found "+path(x.Call.Args[1])+", "+path(x.Call.Args[2]))
+		case *ssa.Store:
+			ia, ok := x.Addr.(*ssa.IndexAddr)
+			if !ok || !isCaseList(ia.X) {
+				continue
+			}
+			// building the list (cases[i] = reflect.SelectCase{...}) is not a removal: the value stored is no element of the list
+			ld, isLd := x.Val.(*ssa.UnOp)
+			if !isLd || ld.Op != token.MUL {
+				continue
+			}
+			if src, ok := ld.X.(*ssa.IndexAddr); !ok || !isCaseList(src.X) {
+				continue
+			}
+			nRemove++
+			r.ok(isChosen(ia.Index, dd.calls), "chans.Merge|closed-case-removed#"+itoa(nRemove), x.Pos(), "a hand-written swap-remove must overwrite the slot reflect.Select chose (cases[chosen] = cases[last]); this store overwrites "+path(ia.Index)+": the closed input stays in the list and a live one is dropped")
+		}
+	}
+	if nRemove == 0 {
+		r.violated("chans.Merge|closed-case-removed", fn.Pos(), "the reflect path never removes the case of a closed input from the list: the closed channel is selected again and again")
+	}
 }
 
 func ruleReplicateShape(c *Ctx, r *R) {
